@@ -22,11 +22,14 @@ let () = register "ring" (fun args ->
         let (r', o) = ring_step !r (RPush (nat_of_int i, n_of_string item)) in
         r := r';
         match o with
-        | OStored len -> Printf.sprintf "stored %d %s" (int_of_nat len) (tail ())
+        | OStored len -> Printf.sprintf "stored %d %s arr=same" (int_of_nat len) (tail ())
         | ODrain (keys, v) ->
-            Printf.sprintf "drain %s %d %s"
+            (* ring.go: a kept batch leaves with its array, the stripe continues on a fresh one (RingOwn.v: OKept);
+               a refused batch is overwritten in place (ORefused) *)
+            Printf.sprintf "drain %s %d %s %s"
               (match v with VKept -> "kept" | VDropped -> "dropped" | VClosed -> "closed")
               (List.length keys) (tail ())
+              (match v with VKept -> "arr=fresh" | _ -> "arr=same")
         | _ -> "badout" in
       (fun op ->
         match op with
